@@ -1,5 +1,6 @@
 import OmplModel.Model.SpaceBounds
 import OmplModel.Driver.SpaceIO
+import OmplModel.Model.Rng
 /-!
 Line-protocol driver of the C08 model (header `spacebounds …`; the header's `seed=` is for the harness's RNG only).
 
@@ -9,6 +10,10 @@ Line-protocol driver of the C08 model (header `spacebounds …`; the header's `s
       -> `sat=<b> ui=<n> gi=<n> | <sampled state>`
   subs <u|n|g> <plen> <k>*plen <dist> <space> <state> <near> <scripted substate>
       -> `out=<full state> | call=<U|N|G> d=<distance given to the inner sampler> near=<substate given to it>`
+  uint <h|s|c> <lo> <hi> <s0> <s1>
+      `RNG::uniformInt(lo, hi)` on the draw that `std::mt19937` + `uniform_real_distribution` (C20's model:
+      OmplModel.Rng.MT / uni01) produce from the state words s0, s1 (index 0, no twist)
+      -> `r=<int> u=<draw> nc=<result without the final clamp>`
   cmps <u|n|g> <dist> <compound space> <near>
       -> `calls=<U|N:<distance>|G:<sigma>>,…`  (what CompoundStateSampler asks of each direct component: `nearBranch`,
          `sd * importance` of the model)
@@ -160,6 +165,16 @@ def step (st : St) (ts : List String) : St × String :=
       | "g" => (st, s!"out={out} | call=G d={floatBits (d * subWeight sp path)} near={showSt (getAt near path)}")
       | _ => (st, "bad-op")
     | none => (st, "bad-op")
+  | ["uint", mode, lo, hi, s0, s1] =>
+    match parseInt? lo, parseInt? hi, parseNat? s0, parseNat? s1 with
+    | some lo, some hi, some s0, some s1 =>
+      if (mode != "h" && mode != "s" && mode != "c") || s0 ≥ 4294967296 || s1 ≥ 4294967296 ||
+          lo < -2147483648 || hi > 2147483647 || hi < lo then (st, "bad-op")
+      else
+        let g : OmplModel.Rng.MT := { x := #[s0.toUInt32, s1.toUInt32], p := 0 }
+        let u := (OmplModel.Rng.uni01 g).1
+        (st, s!"r={uniformInt lo hi u} u={floatBits u} nc={uniformIntNoClamp lo hi u}")
+    | _, _, _, _ => (st, "bad-op")
   | "cmps" :: kind :: r =>
     match (do
       let (d, r) ← pFloat r
